@@ -986,6 +986,44 @@ def dotprops(core_utils, dotprop):
 
 
 # ------------------------------------------------------------------------------------------------------------------
+def dp_cache(dotprop):
+    """`Dotprops.points` setter: does every path reset `_tree`?  `Dotprops.kdtree`: rebuilt from the current points when invalid?"""
+    cls = next((n for n in ast.walk(dotprop) if isinstance(n, ast.ClassDef) and n.name == 'Dotprops'), None)
+    if cls is None:
+        raise ValueError('class Dotprops not found')
+    setter = next((m for m in cls.body if isinstance(m, ast.FunctionDef) and m.name == 'points'
+                   and any(_src(d) == 'points.setter' for d in m.decorator_list)), None)
+    getter = next((m for m in cls.body if isinstance(m, ast.FunctionDef) and m.name == 'kdtree'), None)
+    if setter is None or getter is None:
+        raise ValueError('Dotprops.points setter / Dotprops.kdtree not found')
+
+    def is_reset(st):
+        if isinstance(st, ast.Assign) and any(_src(t) == 'self._tree' for t in st.targets):
+            return isinstance(st.value, ast.Constant) and st.value.value is None
+        if isinstance(st, ast.Delete) and any(_src(t) == 'self._tree' for t in st.targets):
+            return True
+        return False
+    body = _body(setter)
+    top = [i for i, st in enumerate(body) if is_reset(st)]
+    # unconditional: a reset at the top level of the body, and no `return` anywhere before it
+    uncond = False
+    if top:
+        before = body[:top[0]]
+        uncond = not any(isinstance(x, ast.Return) for st in before for x in ast.walk(st))
+    stores = any(isinstance(st, ast.Assign) and any(_src(t) == 'self._points' for t in st.targets) for st in body)
+    g = _body(getter)
+    rebuild = False
+    built_from = ''
+    for st in g:
+        if isinstance(st, ast.If) and _src(st.test) in ("notgetattr(self,'_tree',None)", "getattr(self,'_tree',None)isNone",
+                                                        "self._treeisNone"):
+            for x in st.body:
+                if isinstance(x, ast.Assign) and _src(x.targets[0]) == 'self._tree' and isinstance(x.value, ast.Call):
+                    rebuild = True
+                    built_from = _src(x.value.args[0]) if x.value.args else ''
+    return dict(resets=uncond, stores=stores, rebuild=rebuild, built_from=built_from)
+
+
 def _b(x):
     return 'true' if x else 'false'
 
@@ -1013,6 +1051,7 @@ def generate(repo: Path):
     me = meshing(mesh)
     tg = tangents(gconv)
     dp = dotprops(cu, dpm)
+    dc = dp_cache(dpm)
     f = nv['facts']
 
     L_ = []
@@ -1086,6 +1125,13 @@ def generate(repo: Path):
     A(f'def recalcSvdOfInertia : Bool := {_b(dp["r_svd"])}')
     A(f'def recalcRaises : Cmp := {cmp_lean(dp["r_raise"]) if dp["r_raise"] else cmp_lean(("", "", ""))}')
     A(f'def recalcQuery : String × String := ({_s(dp["r_query"][0])}, {_s(dp["r_query"][1])})')
+    A('')
+    A('/-- `Dotprops.points` setter: stores the array and resets `_tree` on every path (not under a condition); `Dotprops.kdtree` builds the')
+    A('    tree from the current points when there is none. -/')
+    A(f'def pointsSetterResetsTree : Bool := {_b(dc["resets"])}')
+    A(f'def pointsSetterStores : Bool := {_b(dc["stores"])}')
+    A(f'def kdtreeRebuildsWhenInvalid : Bool := {_b(dc["rebuild"])}')
+    A(f'def kdtreeBuiltFrom : String := {_s(dc["built_from"])}')
     A('')
     A('/-! ## meshes (`tree2meshneuron`, `voxels2mesh`, `mesh2skeleton`) -/')
     A(f'def tubeVertexMapRepeat : String := {_s(tm_["repeat"])}')
